@@ -4,8 +4,11 @@ import (
 	"context"
 	"errors"
 	"fmt"
+	"math"
 	"os"
 	"path/filepath"
+	"runtime/debug"
+	"sort"
 	"time"
 
 	"github.com/hashicorp/raft"
@@ -107,7 +110,7 @@ func runMigrate() *ShardResult {
 	if thorough {
 		lengths = []int{0, 1, 2, 3, 4, 5}
 	}
-	batchBytes := []int{0, 1, 32, 33, 64, 65, 1 << 30}
+	batchBytes := []int{0, 1, 32, 33, 64, 65, 1 << 30, 1 << 60, math.MaxInt, -1}
 	firsts := []uint64{1, 5}
 	kinds := []storeKind{skWAL, skInmem, skBolt}
 	res.Bounds["lengths"] = lengths
@@ -191,7 +194,13 @@ done:
 	return res
 }
 
-func migrateCase(n int, vec []int, first uint64, bb int, sk, dk storeKind, cancelK int, bad func(string)) string {
+func migrateCase(n int, vec []int, first uint64, bb int, sk, dk storeKind, cancelK int, bad func(string)) (oc string) {
+	defer func() {
+		if r := recover(); r != nil {
+			bad(fmt.Sprintf("CopyLogs panics: %v\n%s", r, trimRepoStack(string(debug.Stack()))))
+			oc = "panic"
+		}
+	}()
 	src, err := newStore(sk)
 	if err != nil {
 		bad("INTERNAL cannot create source store: " + err.Error())
@@ -348,6 +357,34 @@ func stableCases(res *ShardResult, add func(string, map[string]interface{})) {
 							}
 						}
 					}
+					// a source that cannot read one of the keys it holds: the copy is incomplete, so it must not return nil
+					if err == nil && sk == skWAL && dk == skInmem {
+						var keys []string
+						for k := range wantI {
+							keys = append(keys, k)
+						}
+						for k := range wantB {
+							keys = append(keys, k)
+						}
+						sort.Strings(keys)
+						for _, fk := range keys {
+							d2, e2 := newStore(skInmem)
+							if e2 != nil {
+								continue
+							}
+							res.Counts["evaluations"]++
+							res.Counts["stable_read_fault_cases"]++
+							fsrc := &failingStable{StableStore: src.st, key: fk}
+							p3 := make(chan string, 1024)
+							if err := migrate.CopyStable(context.Background(), d2.st, fsrc, ek, eik, p3); err == nil {
+								add(fmt.Sprintf("CopyStable returned nil although the source failed to read key %s (which it holds): the destination lacks it", fk), desc)
+							}
+							if !progressClosed(p3) {
+								add("CopyStable (source read fails): progress channel not closed", desc)
+							}
+							d2.close()
+						}
+					}
 					// cancelled context
 					ctx, cancel := context.WithCancel(context.Background())
 					cancel()
@@ -364,4 +401,24 @@ func stableCases(res *ShardResult, add func(string, map[string]interface{})) {
 			}
 		}
 	}
+}
+
+// failingStable fails every read of one key.
+type failingStable struct {
+	raft.StableStore
+	key string
+}
+
+func (f *failingStable) Get(k []byte) ([]byte, error) {
+	if string(k) == f.key {
+		return nil, errors.New("injected read failure")
+	}
+	return f.StableStore.Get(k)
+}
+
+func (f *failingStable) GetUint64(k []byte) (uint64, error) {
+	if string(k) == f.key {
+		return 0, errors.New("injected read failure")
+	}
+	return f.StableStore.GetUint64(k)
 }
